@@ -1,5 +1,529 @@
-import EvoModel.Model.Stats
+/-
+C12 — a metric result is self-consistent: statistics, companion arrays, unit.
+Property theorems about `Evo.Stats` (model of `evo/core/metrics.py` statistics / `change_unit` /
+`get_result`, and of the result bookkeeping of `main_ape.ape`, `main_rpe.rpe`) and about the
+regenerated tables `Gen/Units.lean`. Helper lemmas: `Lemmas/Stats.lean`.
+
+`rmse` and `std` are irrational in general: the theorems speak about their squares
+(`meanSq = rmse²`, `var = std²`) and about *any* non-negative `r` with `r * r = meanSq`.
+-/
+import EvoModel.Lemmas.Stats
 namespace Evo.C12
-open Evo Evo.Stats
-theorem placeholder : sse [] = 0 := rfl
+open Evo Evo.Stats Evo.Gen.Units
+
+/-! ## statistics -/
+
+/-- **sse = sum(e²), rmse² = mean(e²)**: `sse = n · rmse²` -/
+theorem sse_eq_n_mul_meanSq (l : List Rat) (h : l ≠ []) : sse l = (l.length : Rat) * meanSq l := by
+  have hn := length_pos_cast h
+  unfold meanSq
+  field_simp
+
+/-- **rmse² = mean² + std²** -/
+theorem rmse_sq_eq_mean_sq_add_var (l : List Rat) (h : l ≠ []) :
+    meanSq l = mean l * mean l + var l := by
+  have hn := length_pos_cast h
+  have hne : (l.length : Rat) ≠ 0 := ne_of_gt hn
+  have hdev := sum_sq_dev (mean l) l
+  simp only [var, meanSq, sse, List.length_map] at hdev ⊢
+  rw [hdev]
+  unfold mean
+  field_simp
+  ring
+
+/-- `mean² ≤ rmse²` -/
+theorem mean_sq_le_meanSq (l : List Rat) (h : l ≠ []) : mean l * mean l ≤ meanSq l := by
+  have := rmse_sq_eq_mean_sq_add_var l h
+  have := var_nonneg l
+  linarith
+
+/-- **mean ≤ rmse** for the non-negative root `r` of `rmse²` -/
+theorem mean_le_rmse (l : List Rat) (h : l ≠ []) (r : Rat) (hr : 0 ≤ r) (hrr : r * r = meanSq l) :
+    mean l ≤ r := by
+  have h1 := mean_sq_le_meanSq l h
+  by_contra hc
+  have hc : r < mean l := not_le.mp hc
+  have : r * r < mean l * mean l := by nlinarith
+  linarith
+
+/-- **min ≤ mean** -/
+theorem min_le_mean (l : List Rat) (h : l ≠ []) : minL l ≤ mean l := by
+  have hn := length_pos_cast h
+  have := sum_ge_of_forall_ge (minL l) l (fun x hx => minL_le hx)
+  unfold mean
+  rw [le_div_iff₀ hn]
+  exact this
+
+/-- mean ≤ max -/
+theorem mean_le_max (l : List Rat) (h : l ≠ []) : mean l ≤ maxL l := by
+  have hn := length_pos_cast h
+  have := sum_le_of_forall_le (maxL l) l (fun x hx => le_maxL hx)
+  unfold mean
+  rw [div_le_iff₀ hn]
+  exact this
+
+/-- `rmse² ≤ max²` for error values ≥ 0 -/
+theorem meanSq_le_max_sq (l : List Rat) (h : l ≠ []) (hpos : ∀ x ∈ l, 0 ≤ x) :
+    meanSq l ≤ maxL l * maxL l := by
+  have hn := length_pos_cast h
+  have hb : sse l ≤ (maxL l * maxL l) * (l.length : Rat) := by
+    have := sum_le_of_forall_le (maxL l * maxL l) (l.map fun x => x * x) (by
+      intro y hy
+      obtain ⟨x, hx, rfl⟩ := List.mem_map.mp hy
+      have h0 := hpos x hx
+      have h1 := le_maxL hx
+      nlinarith)
+    simpa [sse] using this
+  unfold meanSq
+  rw [div_le_iff₀ hn]
+  exact hb
+
+/-- **rmse ≤ max** for error values ≥ 0 -/
+theorem rmse_le_max (l : List Rat) (h : l ≠ []) (hpos : ∀ x ∈ l, 0 ≤ x) (r : Rat) (_hr : 0 ≤ r)
+    (hrr : r * r = meanSq l) : r ≤ maxL l := by
+  have h1 := meanSq_le_max_sq l h hpos
+  have hm : 0 ≤ maxL l := hpos _ (maxL_mem h)
+  by_contra hc
+  have hc : maxL l < r := not_le.mp hc
+  have : maxL l * maxL l < r * r := by nlinarith
+  linarith
+
+/-- **min ≤ mean ≤ rmse ≤ max** -/
+theorem min_le_mean_le_rmse_le_max (l : List Rat) (h : l ≠ []) (hpos : ∀ x ∈ l, 0 ≤ x) (r : Rat)
+    (hr : 0 ≤ r) (hrr : r * r = meanSq l) : minL l ≤ mean l ∧ mean l ≤ r ∧ r ≤ maxL l :=
+  ⟨min_le_mean l h, mean_le_rmse l h r hr hrr, rmse_le_max l h hpos r hr hrr⟩
+
+/-- the median is the middle of the *sorted permutation* of the values -/
+theorem median_sorted_permutation (l : List Rat) :
+    (sort l).Perm l ∧ (sort l).Pairwise (· ≤ ·) ∧
+    median l = (if l.length % 2 = 1 then (sort l).getD (l.length / 2) 0
+                else ((sort l).getD (l.length / 2 - 1) 0 + (sort l).getD (l.length / 2) 0) / 2) := by
+  refine ⟨sort_perm l, sort_sorted l, ?_⟩
+  simp only [median, sort_length]
+
+/-- **min ≤ median ≤ max** -/
+theorem min_le_median_le_max (l : List Rat) (h : l ≠ []) : minL l ≤ median l ∧ median l ≤ maxL l := by
+  have hn : 0 < l.length := List.length_pos_of_ne_nil h
+  rw [(median_sorted_permutation l).2.2]
+  split
+  · exact sort_getD_bounds (Nat.div_lt_self hn (by omega))
+  · have h1 := sort_getD_bounds (l := l) (i := l.length / 2 - 1) (by omega)
+    have h2 := sort_getD_bounds (l := l) (i := l.length / 2) (Nat.div_lt_self hn (by omega))
+    constructor
+    · rw [le_div_iff₀ (by norm_num : (0 : Rat) < 2)]; linarith [h1.1, h2.1]
+    · rw [div_le_iff₀ (by norm_num : (0 : Rat) < 2)]; linarith [h1.2, h2.2]
+
+/-- min and max are attained and bound every value -/
+theorem min_max_are_extremal_values (l : List Rat) (h : l ≠ []) :
+    minL l ∈ l ∧ maxL l ∈ l ∧ ∀ x ∈ l, minL l ≤ x ∧ x ≤ maxL l :=
+  ⟨minL_mem h, maxL_mem h, fun _ hx => ⟨minL_le hx, le_maxL hx⟩⟩
+
+/-- constant arrays and a single value: all location statistics coincide, std = 0 -/
+theorem constant_array (c : Rat) (n : Nat) :
+    let l := List.replicate (n + 1) c
+    mean l = c ∧ minL l = c ∧ maxL l = c ∧ var l = 0 ∧ meanSq l = c * c := by
+  intro l
+  have hne : l ≠ [] := by simp [l]
+  have hmem : ∀ x ∈ l, x = c := fun x hx => (List.mem_replicate.mp hx).2
+  have hmin : minL l = c := hmem _ (minL_mem hne)
+  have hmax : maxL l = c := hmem _ (maxL_mem hne)
+  have hmean : mean l = c := by
+    have h1 := min_le_mean l hne
+    have h2 := mean_le_max l hne
+    rw [hmin] at h1; rw [hmax] at h2
+    exact le_antisymm h2 h1
+  have hsq : meanSq l = c * c := by
+    have hn := length_pos_cast hne
+    have hs : sse l = (c * c) * (l.length : Rat) := by
+      apply le_antisymm
+      · have := sum_le_of_forall_le (c * c) (l.map fun x => x * x) (by
+          intro y hy; obtain ⟨x, hx, rfl⟩ := List.mem_map.mp hy; rw [hmem x hx])
+        simpa [sse] using this
+      · have := sum_ge_of_forall_ge (c * c) (l.map fun x => x * x) (by
+          intro y hy; obtain ⟨x, hx, rfl⟩ := List.mem_map.mp hy; rw [hmem x hx])
+        simpa [sse] using this
+    unfold meanSq
+    rw [hs]; field_simp
+  refine ⟨hmean, hmin, hmax, ?_, hsq⟩
+  have := rmse_sq_eq_mean_sq_add_var l hne
+  rw [hsq, hmean] at this
+  linarith
+
+/-! ## units -/
+
+theorem U.mem_all (u : U) : u ∈ U.all := by cases u <;> decide
+theorem Rel.mem_all (r : Rel) : r ∈ Rel.all := by cases r <;> decide
+
+/-- the conversions the property statement allows: both length, both angle, or no change -/
+def Allowed (u v : U) : Prop := (u ∈ lengthUnits ∧ v ∈ lengthUnits) ∨ (u ∈ angleUnits ∧ v ∈ angleUnits) ∨ u = v
+
+instance (u v : U) : Decidable (Allowed u v) := by unfold Allowed; infer_instance
+
+/-- value of one unit in the base unit of its kind (metre, radian), written down from the
+property statement: mm, cm, m, km; deg = π/180 rad -/
+def toBase : U → Factor
+  | .millimeters => ⟨(1 : Rat) / 1000, 0⟩
+  | .centimeters => ⟨(1 : Rat) / 100, 0⟩
+  | .meters => ⟨1, 0⟩
+  | .kilometers => ⟨1000, 0⟩
+  | .degrees => ⟨(1 : Rat) / 180, 1⟩
+  | .radians => ⟨1, 0⟩
+  | _ => ⟨1, 0⟩
+
+/-- **conversions between angle and length, or of unit-less / percent / frame / second
+quantities, are refused; all others are carried out** (complete 10 × 10 matrix) -/
+theorem convert_allowed_iff : ∀ u ∈ U.all, ∀ v ∈ U.all, ((factor u v).isSome ↔ Allowed u v) := by
+  decide +kernel
+
+/-- **the exact conversion factor**: `factor u v = toBase u / toBase v` -/
+theorem factor_def : ∀ u ∈ U.all, ∀ v ∈ U.all, Allowed u v → factor u v = some ((toBase u).div (toBase v)) := by
+  decide +kernel
+
+theorem factor_self : ∀ u ∈ U.all, factor u u = some Factor.one := by decide +kernel
+
+/-- table form of `factor_comp` (a decidable statement over the 1000 unit triples) -/
+def compOk (u v w : U) : Bool :=
+  match factor u v, factor v w with
+  | some f, some g => decide (factor u w = some (f.mul g))
+  | _, _ => true
+
+theorem factor_comp_table : ∀ u ∈ U.all, ∀ v ∈ U.all, ∀ w ∈ U.all, compOk u v w = true := by
+  decide +kernel
+
+/-- converting `u → v → w` is converting `u → w` -/
+theorem factor_comp (u v w : U) (f g : Factor) (h1 : factor u v = some f) (h2 : factor v w = some g) :
+    factor u w = some (f.mul g) := by
+  have := factor_comp_table u (U.mem_all u) v (U.mem_all v) w (U.mem_all w)
+  unfold compOk at this
+  rw [h1, h2] at this
+  simpa using this
+
+/-- the table `METER_SCALE_FACTORS` in the source says what the statement says -/
+theorem meter_factors_table :
+    meterFactor .millimeters = some ((1 : Rat) / 1000) ∧ meterFactor .centimeters = some ((1 : Rat) / 100) ∧
+    meterFactor .meters = some 1 ∧ meterFactor .kilometers = some 1000 ∧
+    ∀ u ∈ U.all, ((meterFactor u).isSome ↔ u ∈ lengthUnits) := by
+  decide +kernel
+
+/-- the model of `change_unit` behaves, on all 100 ordered unit pairs, like the outcome
+observed by *running* `PE.change_unit` (table regenerated on every run) -/
+theorem model_matches_observed : ∀ u ∈ U.all, ∀ v ∈ U.all, classify u v = observed u v := by
+  decide +kernel
+
+/-- an allowed conversion multiplies every value by the factor and updates the unit -/
+theorem change_unit_scales (pe : PE) (v : U) (f : Factor) (hne : pe.error ≠ []) (huv : pe.unit ≠ v)
+    (hf : factor pe.unit v = some f) :
+    changeUnit pe v = some { unit := v, error := pe.error.map (fun x => f.q * x), piPow := pe.piPow + f.piPow } := by
+  unfold changeUnit
+  rw [if_neg huv, hf]
+  have : pe.error.isEmpty = false := by
+    cases h : pe.error with
+    | nil => exact absurd h hne
+    | cons _ _ => rfl
+  simp [this]
+
+/-- **refused conversions leave unit and values untouched** (`none` = exception, the object
+keeps its state) and a conversion to the same unit is the identity -/
+theorem refused_leaves_values (pe : PE) (v : U) :
+    (¬ Allowed pe.unit v → changeUnit pe v = none) ∧ (pe.unit = v → changeUnit pe v = some pe) := by
+  constructor
+  · intro hna
+    have hnone : factor pe.unit v = none := by
+      have := convert_allowed_iff pe.unit (U.mem_all _) v (U.mem_all _)
+      cases hf : factor pe.unit v with
+      | none => rfl
+      | some f => exact absurd (this.mp (by simp [hf])) hna
+    have hne : pe.unit ≠ v := fun e => hna (Or.inr (Or.inr e))
+    unfold changeUnit
+    rw [if_neg hne, hnone]
+  · intro e
+    unfold changeUnit
+    rw [if_pos e]
+
+/-- `change_unit` either fails or yields exactly: unit = requested unit, values scaled by the
+factor of the table -/
+theorem change_unit_result (pe pe' : PE) (v : U) (h : changeUnit pe v = some pe') :
+    pe'.unit = v ∧ ∃ f, factor pe.unit v = some f ∧ pe'.error = pe.error.map (fun x => f.q * x) ∧
+      pe'.piPow = pe.piPow + f.piPow := by
+  unfold changeUnit at h
+  split at h
+  · next e =>
+    cases h
+    refine ⟨e, Factor.one, ?_, ?_, ?_⟩
+    · rw [e]; exact factor_self v (U.mem_all v)
+    · simp [Factor.one]
+    · simp [Factor.one]
+  · split at h
+    · cases h
+    · next f hf =>
+      split at h
+      · cases h
+      · cases h
+        exact ⟨rfl, f, hf, rfl, rfl⟩
+
+/-! ## unit of a relation, label, title -/
+
+/-- which unit each pose relation is measured in (APE and RPE) -/
+theorem relation_units :
+    apeUnit .translation_part = .meters ∧ apeUnit .point_distance = .meters ∧
+    apeUnit .rotation_angle_deg = .degrees ∧ apeUnit .rotation_angle_rad = .radians ∧
+    apeUnit .rotation_part = .none ∧ apeUnit .full_transformation = .none ∧
+    rpeUnit .point_distance_error_ratio = .percent ∧
+    ∀ r ∈ Rel.all, r ≠ .point_distance_error_ratio → rpeUnit r = apeUnit r := by
+  decide +kernel
+
+/-- **label and title name the metric, the pose relation and the unit the values are in**:
+whatever `--change_unit` asks for, a returned result carries the unit its values were
+converted to, in the label and in the title. -/
+theorem label_names_metric_and_unit (rel : Rel) (chg : Option U) (probe : List Rat) (nm : Naming)
+    (h : apeNaming rel chg probe = some nm) :
+    nm.label = "APE" ++ " (" ++ nm.unit.value ++ ")" ∧
+    nm.titleHead = "APE w.r.t. " ++ rel.value ++ " " ++ "(" ++ nm.unit.value ++ ")" ∧
+    (chg = none → nm.unit = apeUnit rel) ∧
+    (∀ v, chg = some v → nm.unit = v ∧ (v ≠ apeUnit rel → Allowed (apeUnit rel) v)) := by
+  unfold apeNaming at h
+  cases chg with
+  | none =>
+    simp only [Option.map_some, Option.some.injEq] at h
+    subst h
+    simp [metricLabel, apeTitle]
+  | some v =>
+    simp only [Option.map_eq_some_iff] at h
+    obtain ⟨pe', hpe, rfl⟩ := h
+    obtain ⟨hu, f, hf, _, _⟩ := change_unit_result _ _ _ hpe
+    refine ⟨by simp [metricLabel], by simp [apeTitle], by simp, ?_⟩
+    intro w hw
+    cases hw
+    refine ⟨hu, fun _ => ?_⟩
+    exact (convert_allowed_iff _ (U.mem_all _) _ (U.mem_all _)).mp (by simp [hf])
+
+theorem rpe_label_names_metric_and_unit (rel : Rel) (chg : Option U) (probe : List Rat) (d : String)
+    (du : U) (ap : Bool) (nm : Naming) (h : rpeNaming rel chg probe d du ap = some nm) :
+    nm.label = "RPE" ++ " (" ++ nm.unit.value ++ ")" ∧
+    nm.titleHead = rpeTitle rel nm.unit d du ap ∧
+    (chg = none → nm.unit = rpeUnit rel) ∧
+    (∀ v, chg = some v → nm.unit = v ∧ (v ≠ rpeUnit rel → Allowed (rpeUnit rel) v)) := by
+  unfold rpeNaming at h
+  cases chg with
+  | none =>
+    simp only [Option.map_some, Option.some.injEq] at h
+    subst h
+    simp [metricLabel]
+  | some v =>
+    simp only [Option.map_eq_some_iff] at h
+    obtain ⟨pe', hpe, rfl⟩ := h
+    obtain ⟨hu, f, hf, _, _⟩ := change_unit_result _ _ _ hpe
+    refine ⟨by simp [metricLabel], rfl, by simp, ?_⟩
+    intro w hw
+    cases hw
+    refine ⟨hu, fun _ => ?_⟩
+    exact (convert_allowed_iff _ (U.mem_all _) _ (U.mem_all _)).mp (by simp [hf])
+
+/-! ## a result handed out earlier is not changed by a later unit change (F11) -/
+
+/-- repaired `change_unit`: every array that existed before still holds the same values
+(in particular the one an earlier `get_result()` refers to), for any heap and any units -/
+theorem earlier_result_unchanged (h : Heap) (pe : PEObj) (v : U) (a : Nat) (ha : a < h.length) :
+    (changeUnitH h pe v).1.getD a [] = h.getD a [] := by
+  unfold changeUnitH
+  split
+  · rfl
+  · split
+    · rfl
+    · split
+      · rfl
+      · simp only [List.getD_eq_getElem?_getD]
+        rw [List.getElem?_append_left ha]
+
+/-- the pinned code (before fix 06bb385): after `get_result(); change_unit(mm)` the earlier
+result labelled "APE (m)" holds the values in millimetres -/
+theorem f11_counterexample :
+    let h0 : Heap := [[1, 2]]
+    let pe0 : PEObj := ⟨.meters, 0⟩
+    let res := getResultH "APE" pe0
+    res.label = "APE (m)" ∧
+    (changeUnitHOld h0 pe0 .millimeters).1.getD res.addr [] = [1000, 2000] ∧
+    (changeUnitH h0 pe0 .millimeters).1.getD res.addr [] = [1, 2] := by
+  decide +kernel
+
+/-! ## companion arrays -/
+
+theorem secondsFromStart_length (ts : List Rat) : (secondsFromStart ts).length = ts.length := by
+  cases ts <;> simp [secondsFromStart]
+
+theorem reduceIds_length_of_valid {α} (l : List α) (ids : List Nat) (h : ∀ i ∈ ids, i < l.length) :
+    (reduceIds l ids).length = ids.length := by
+  induction ids with
+  | nil => simp [reduceIds]
+  | cons i r ih =>
+    have hi := h i (by simp)
+    have hr := ih (fun j hj => h j (by simp [hj]))
+    simp only [reduceIds] at hr ⊢
+    rw [List.filterMap_cons, List.getElem?_eq_getElem hi]
+    simp [hr]
+
+theorem reduceIds_getElem {α} (l : List α) (ids : List Nat) (h : ∀ i ∈ ids, i < l.length) (k : Nat)
+    (hk : k < ids.length) : (reduceIds l ids)[k]? = l[ids[k]]? := by
+  induction ids generalizing k with
+  | nil => simp at hk
+  | cons i r ih =>
+    have hi := h i (by simp)
+    simp only [reduceIds] at ih ⊢
+    rw [List.filterMap_cons, List.getElem?_eq_getElem hi]
+    cases k with
+    | zero => simp [List.getElem?_eq_getElem hi]
+    | succ k =>
+      simp only [List.getElem?_cons_succ, List.getElem_cons_succ]
+      exact ih (fun j hj => h j (by simp [hj])) k (by simpa using hk)
+
+theorem stepSq_length (ps : List (V3 Rat)) : (stepSq ps).length = ps.length - 1 := by
+  induction ps with
+  | nil => rfl
+  | cons a r ih =>
+    cases r with
+    | nil => rfl
+    | cons b r' =>
+      simp only [stepSq, List.length_cons] at ih ⊢
+      omega
+
+/-- **APE: every companion array has exactly one entry per pose (= per error value)**;
+`distances` has one entry per stored pose (`refStepSq.length + 1`) -/
+theorem ape_companions_length (ts : List Rat) (pr pe : List (V3 Rat)) (hn : 0 < ts.length)
+    (hr : pr.length = ts.length) (he : pe.length = ts.length) :
+    let c := apeResultArrays ts pr pe
+    c.seconds.length = ts.length ∧ c.timestamps.length = ts.length ∧ c.poseOf.length = ts.length ∧
+    c.stored.length = ts.length ∧ c.refStepSq.length + 1 = ts.length ∧ c.estStepSq.length + 1 = ts.length ∧
+    c.skip = 0 := by
+  have h1 : (stepSq pr).length + 1 = ts.length := by rw [stepSq_length, hr]; omega
+  have h2 : (stepSq pe).length + 1 = ts.length := by rw [stepSq_length, he]; omega
+  exact ⟨secondsFromStart_length ts, rfl, List.length_range, List.length_range, h1, h2, rfl⟩
+
+/-- **APE: entry `k` refers to pose `k`** -/
+theorem ape_companions_refer_to_pose (ts : List Rat) (pr pe : List (V3 Rat)) (k : Nat) (hk : k < ts.length) :
+    let c := apeResultArrays ts pr pe
+    c.poseOf[k]? = some k ∧ c.stored[k]? = some k ∧ c.timestamps[k]? = some ts[k] ∧
+    c.seconds[k]? = some (ts[k] - ts[0]'(by omega)) := by
+  have h0 : 0 < ts.length := by omega
+  refine ⟨by simp [apeResultArrays, hk], by simp [apeResultArrays, hk], by simp [apeResultArrays, hk], ?_⟩
+  exact secondsFromStart_getElem? ts k _ _ (List.getElem?_eq_getElem h0) (List.getElem?_eq_getElem hk)
+
+/-- **RPE: every companion array has exactly one entry per pair (= per error value)**,
+for any list of pair end indices (every pairing mode, also after the zero-distance filter) -/
+theorem rpe_companions_length (ts : List Rat) (pr pe : List (V3 Rat)) (ids : List Nat)
+    (hn : 0 < ts.length) (hr : pr.length = ts.length) (he : pe.length = ts.length)
+    (hv : ∀ i ∈ ids, i < ts.length) :
+    let c := rpeResultArrays ts pr pe ids
+    c.seconds.length = ids.length ∧ c.timestamps.length = ids.length ∧ c.poseOf.length = ids.length ∧
+    c.stored.length = ids.length + 1 ∧ c.refStepSq.length = ids.length ∧ c.estStepSq.length = ids.length := by
+  have hv' : ∀ i ∈ (0 :: ids), i < ts.length := by
+    intro i hi
+    rcases List.mem_cons.mp hi with rfl | h
+    · exact hn
+    · exact hv i h
+  have h1 := reduceIds_length_of_valid ts (0 :: ids) hv'
+  have h2 := reduceIds_length_of_valid pr (0 :: ids) (by rw [hr]; exact hv')
+  have h3 := reduceIds_length_of_valid pe (0 :: ids) (by rw [he]; exact hv')
+  simp only [List.length_cons] at h1 h2 h3
+  refine ⟨?_, ?_, ?_, ?_, ?_, ?_⟩
+  · show ((secondsFromStart (reduceIds ts (0 :: ids))).tail).length = ids.length
+    rw [List.length_tail, secondsFromStart_length, h1]; omega
+  · show ((reduceIds ts (0 :: ids)).tail).length = ids.length
+    rw [List.length_tail, h1]; omega
+  · rfl
+  · rfl
+  · show (stepSq (reduceIds pr (0 :: ids))).length = ids.length
+    rw [stepSq_length, h2]; omega
+  · show (stepSq (reduceIds pe (0 :: ids))).length = ids.length
+    rw [stepSq_length, h3]; omega
+
+/-- **RPE: entry `k` refers to the end pose of pair `k`** — its timestamp, its time since the
+first pose; and the stored trajectory is pose 0 followed by the pair end poses -/
+theorem rpe_companions_refer_to_pose (ts : List Rat) (pr pe : List (V3 Rat)) (ids : List Nat)
+    (hn : 0 < ts.length) (hv : ∀ i ∈ ids, i < ts.length) (k : Nat) (hk : k < ids.length) :
+    let c := rpeResultArrays ts pr pe ids
+    c.poseOf[k]? = some ids[k] ∧
+    c.stored[k + 1]? = some ids[k] ∧ c.stored[0]? = some 0 ∧
+    c.timestamps[k]? = some (ts[ids[k]]'(hv _ (List.getElem_mem hk))) ∧
+    c.seconds[k]? = some (ts[ids[k]]'(hv _ (List.getElem_mem hk)) - ts[0]) := by
+  have hik : ids[k] < ts.length := hv _ (List.getElem_mem hk)
+  have hv' : ∀ i ∈ (0 :: ids), i < ts.length := by
+    intro i hi
+    rcases List.mem_cons.mp hi with rfl | h
+    · exact hn
+    · exact hv i h
+  have hget := reduceIds_getElem ts (0 :: ids) hv' (k + 1) (by simpa using hk)
+  simp only [List.getElem_cons_succ] at hget
+  have hget0 := reduceIds_getElem ts (0 :: ids) hv' 0 (by simp)
+  simp only [List.getElem_cons_zero] at hget0
+  simp only [rpeResultArrays, List.tail_cons]
+  refine ⟨by simp [hk], by simp [hk], by simp, ?_, ?_⟩
+  · rw [List.getElem?_tail, hget, List.getElem?_eq_getElem hik]
+  · rw [List.getElem?_tail]
+    refine secondsFromStart_getElem? _ (k + 1) _ _ ?_ ?_
+    · rw [hget0, List.getElem?_eq_getElem hn]
+    · rw [hget, List.getElem?_eq_getElem hik]
+
+/-- **the trajectories stored by `rpe()` are the processed ones restricted to the first pose
+and the pair end poses** (for any per-pose data, e.g. the pose matrices) -/
+theorem stored_traj_is_processed_one {α} (traj : List α) (ids : List Nat) (hn : 0 < traj.length)
+    (hv : ∀ i ∈ ids, i < traj.length) :
+    (reduceIds traj (0 :: ids)).length = ids.length + 1 ∧
+    (reduceIds traj (0 :: ids))[0]? = some traj[0] ∧
+    ∀ k (hk : k < ids.length), (reduceIds traj (0 :: ids))[k + 1]? = some (traj[ids[k]]'(hv _ (List.getElem_mem hk))) := by
+  have hv' : ∀ i ∈ (0 :: ids), i < traj.length := by
+    intro i hi
+    rcases List.mem_cons.mp hi with rfl | h
+    · exact hn
+    · exact hv i h
+  refine ⟨by simpa using reduceIds_length_of_valid traj (0 :: ids) hv', ?_, ?_⟩
+  · have := reduceIds_getElem traj (0 :: ids) hv' 0 (by simp)
+    simpa [List.getElem?_eq_getElem hn] using this
+  · intro k hk
+    have := reduceIds_getElem traj (0 :: ids) hv' (k + 1) (by simpa using hk)
+    simp only [List.getElem_cons_succ] at this
+    rw [this, List.getElem?_eq_getElem]
+
+/-- **zero-distance filter of the ratio relation**: ids and values stay aligned — the kept
+`(id, value)` pairs are exactly those of the pairs with non-zero reference distance, in order -/
+theorem ratio_filter_aligned (r e : List Rat) (ids : List Nat) :
+    (ratioFilter r e ids).1.length = (ratioFilter r e ids).2.length ∧
+    List.zip (ratioFilter r e ids).1 (ratioFilter r e ids).2 =
+      (List.zip r (List.zip e ids)).filterMap
+        (fun t => if t.1 = 0 then none else some (t.2.2, absR (t.1 - t.2.1) / t.1 * 100)) := by
+  induction r generalizing e ids with
+  | nil => simp [ratioFilter]
+  | cons a r ih =>
+    cases e with
+    | nil => simp [ratioFilter]
+    | cons b e =>
+      cases ids with
+      | nil => simp [ratioFilter]
+      | cons j ids =>
+        obtain ⟨h1, h2⟩ := ih e ids
+        simp only [ratioFilter, List.zip_cons_cons, List.filterMap_cons]
+        by_cases ha : a = 0
+        · simp only [ha, if_true]
+          exact ⟨h1, h2⟩
+        · simp only [ha, if_false, List.length_cons, List.zip_cons_cons]
+          exact ⟨by rw [h1], by rw [h2]⟩
+
+/-! ## non-vacuity: the hypotheses are satisfiable on concrete, non-trivial instances -/
+
+theorem sort_example : sort [3, 1, 2, 6] = [1, 2, 3, 6] := sort_eq_of_sorted_perm (by decide) (by decide)
+example : median [3, 1, 2, 6] = 5 / 2 := by
+  simp only [median, sort_example]; decide +kernel
+example : (meanSq [1, 2, 3, 6], mean [1, 2, 3, 6], var [1, 2, 3, 6], minL [1, 2, 3, 6], maxL [1, 2, 3, 6], sse [1, 2, 3, 6])
+    = (25 / 2, 3, 7 / 2, 1, 6, 50) := by decide +kernel
+example : ([3, 1, 2] : List Rat) ≠ [] ∧ (∀ x ∈ ([3, 1, 2] : List Rat), 0 ≤ x) := by decide +kernel
+example : ∃ r : Rat, 0 ≤ r ∧ r * r = meanSq [3, 4, 5, 0, 0, 0, 0, 0] := ⟨5 / 2, by decide +kernel⟩
+example : Allowed .millimeters .kilometers ∧ ¬ Allowed .meters .degrees ∧ ¬ Allowed .percent .none := by decide
+example : changeUnit { unit := .radians, error := [1, 1 / 2] } .degrees
+    = some { unit := .degrees, error := [180, 90], piPow := -1 } := by decide +kernel
+example : changeUnit { unit := .meters, error := [1] } .degrees = none := by decide +kernel
+example : (rpeResultArrays [10, 11, 12, 13] [⟨0,0,0⟩, ⟨1,0,0⟩, ⟨2,0,0⟩, ⟨4,0,0⟩] [⟨0,0,0⟩, ⟨1,0,0⟩, ⟨2,0,0⟩, ⟨4,0,0⟩] [2, 3])
+    = { stored := [0, 2, 3], seconds := [2, 3], timestamps := [12, 13], poseOf := [2, 3],
+        refStepSq := [4, 4], estStepSq := [4, 4], skip := 1 } := by decide +kernel
+example : ratioFilter [1, 0, 2] [3, 2, 5] [1, 2, 3] = ([1, 3], [200, 150]) := by decide +kernel
+example : (apeNaming .translation_part (some .millimeters) [1]).map (·.label) = some "APE (mm)" := by decide +kernel
+
 end Evo.C12
